@@ -368,12 +368,10 @@ def run_compiler_check(ctx, res, prop):
         events = set(rep.get("events", [])) if rep and "error" not in rep else set()
         # the instance lies in the class of one of the Lean fragment theorems (C02_fragment_partial: single tree-like
         # definition; C02_fragment_consts: + constants; C02_fragment_multi / C02_fragment_named: straight-line
-        # definition lists, uncompute off – the driver's `in_fragment` is their disjunction for this run).
-        # PORT-PENDING: C02_fragment_partial is ported to the model of the repaired compiler; the other three were
-        # proved for the model of the unrepaired compiler and are parked until QV/Proofs/CompilerSem2*.lean are
-        # ported (docs/notes/PORT-PENDING.md); the class flags are still reported
-        # and a model instance of a class that the Lean validator rejects is still a disagreement (it would refute
-        # the statement that is to be re-proved)
+        # definition lists – the driver's `in_fragment` is their disjunction for this run; it reports the last two
+        # for uncompute off only, the theorems cover uncompute on as well since the port to the repaired compiler,
+        # docs/notes/PORT-PENDING.md).  All four are proved for the model of the repaired compiler; a model
+        # instance of a class that the Lean validator rejects is a disagreement (it would refute the theorem)
         in_frag = bool(prop == "C02" and rep is not None and not mismatch and rep.get("in_fragment"))
         frag_thm = "C02_fragment_partial"
         if in_frag:
@@ -442,10 +440,9 @@ def run_compiler_check(ctx, res, prop):
     if prop == "C02":
         res.notes.append(f"{stats['in_fragment']} compiled instances lie in the decidable class of a Lean fragment theorem "
                          "(C02_fragment_partial: one tree-like definition; C02_fragment_consts: + constants; "
-                         "C02_fragment_multi / C02_fragment_named: straight-line definition lists with re-used freed ancillas, "
-                         "uncompute off) with the model reproducing the real gate list; C02_fragment_partial is proved for the "
-                         "model of the repaired compiler, the other three are PORT-PENDING (proved for the model of the "
-                         "unrepaired compiler, parked until CompilerSem2*.lean are ported); "
+                         "C02_fragment_multi / C02_fragment_named: straight-line definition lists with re-used freed ancillas; "
+                         "the driver reports these two for uncompute off, the theorems hold for uncompute on and off) with "
+                         "the model reproducing the real gate list; all four are proved for the model of the repaired compiler; "
                          f"{stats['in_fragment_bad']} of these instances fail")
     if prop in ("C03", "C06"):
         thm, cls = (("C03_fragment_partial", "inCleanFragment") if prop == "C03" else ("C06_fragment_partial", "inXorFragment"))
